@@ -275,6 +275,7 @@ fn lint_text(program: &rrss::frontend::ast::Program) -> String {
 /// One observation of (source, input) under a configuration. Returns the
 /// observation and the dictionary-order probe log.
 pub fn observe(source: &str, input: &[u8], cfg: &Config) -> (Obs, Vec<String>, u64) {
+    crate::driver::heartbeat();
     let inner = || -> (Obs, Vec<String>, u64) {
         // heap perturbation: junk allocations held across the run
         let mut junk: Vec<Vec<u8>> = Vec::new();
